@@ -147,14 +147,26 @@ func (v *Value) CompareAndSwap(o, n any) bool {
 	return v.real.CompareAndSwap(o, n)
 }
 
-func AddUint32(p *uint32, d uint32) uint32 { vsched.Point("atomic.AddUint32"); return atomic.AddUint32(p, d) }
-func LoadUint32(p *uint32) uint32          { vsched.Point("atomic.LoadUint32"); return atomic.LoadUint32(p) }
-func StoreUint32(p *uint32, d uint32)      { vsched.Point("atomic.StoreUint32"); atomic.StoreUint32(p, d) }
-func AddUint64(p *uint64, d uint64) uint64 { vsched.Point("atomic.AddUint64"); return atomic.AddUint64(p, d) }
-func LoadUint64(p *uint64) uint64          { vsched.Point("atomic.LoadUint64"); return atomic.LoadUint64(p) }
-func StoreUint64(p *uint64, d uint64)      { vsched.Point("atomic.StoreUint64"); atomic.StoreUint64(p, d) }
-func SwapInt32(p *int32, v int32) int32    { vsched.Point("atomic.SwapInt32"); return atomic.SwapInt32(p, v) }
-func SwapInt64(p *int64, v int64) int64    { vsched.Point("atomic.SwapInt64"); return atomic.SwapInt64(p, v) }
+func AddUint32(p *uint32, d uint32) uint32 {
+	vsched.Point("atomic.AddUint32")
+	return atomic.AddUint32(p, d)
+}
+func LoadUint32(p *uint32) uint32     { vsched.Point("atomic.LoadUint32"); return atomic.LoadUint32(p) }
+func StoreUint32(p *uint32, d uint32) { vsched.Point("atomic.StoreUint32"); atomic.StoreUint32(p, d) }
+func AddUint64(p *uint64, d uint64) uint64 {
+	vsched.Point("atomic.AddUint64")
+	return atomic.AddUint64(p, d)
+}
+func LoadUint64(p *uint64) uint64     { vsched.Point("atomic.LoadUint64"); return atomic.LoadUint64(p) }
+func StoreUint64(p *uint64, d uint64) { vsched.Point("atomic.StoreUint64"); atomic.StoreUint64(p, d) }
+func SwapInt32(p *int32, v int32) int32 {
+	vsched.Point("atomic.SwapInt32")
+	return atomic.SwapInt32(p, v)
+}
+func SwapInt64(p *int64, v int64) int64 {
+	vsched.Point("atomic.SwapInt64")
+	return atomic.SwapInt64(p, v)
+}
 func SwapUint32(p *uint32, v uint32) uint32 {
 	vsched.Point("atomic.SwapUint32")
 	return atomic.SwapUint32(p, v)
